@@ -6,11 +6,17 @@ from . import repo, trainer, trainlists, oracles, monitors
 def gen_train_case(rng, encodings=None, coverages=(0.3, 0.6, 1.0), allow_ew=True, max_len_choices=(6, 7, 8, 9)):
     enc = rng.choice(encodings or ['utf-8', 'utf-8', 'utf-8', 'latin-1', 'cp1251', 'cp1252', 'ascii', 'iso-8859-7'])
     items = trainlists.gen_list(rng, enc, allow_ew=allow_ew)
-    return {'save_sensitive': rng.random() < 0.3, 'items': [[p, k] for p, k in items], 'encoding': enc, 'coverage': rng.choice(list(coverages)) if rng.random() < 0.7 else (round(rng.uniform(0.05, 0.99), rng.choice([2, 3, 6])) if 0 not in coverages or rng.random() < 0.9 else 0), 'ngram': rng.choice([2, 3, 4, 5]),
-            'alphabet': rng.choice([10, 100, 100, 100, 30, 100, 100, 10, 100, 100, 6, 4]), 'max_len': rng.choice(list(max_len_choices)), 'hseed': rng.getrandbits(32)}
+    # OMEN-starved trainings: a tiny learned alphabet and long n-grams leave (almost) no initial n-gram inside the alphabet, so often no OMEN level has any
+    # keyspace; with coverage < 1 the trainer must refuse (or otherwise not write a Markov structure nothing can be generated from)
+    starved = rng.random() < 0.1
+    return {'save_sensitive': rng.random() < 0.3, 'items': [[p, k] for p, k in items], 'encoding': enc, 'coverage': rng.choice(list(coverages)) if rng.random() < 0.7 else (round(rng.uniform(0.05, 0.99), rng.choice([2, 3, 6])) if 0 not in coverages or rng.random() < 0.9 else 0), 'ngram': rng.choice([4, 5]) if starved else rng.choice([2, 3, 4, 5]),
+            'alphabet': rng.choice([3, 4, 5]) if starved else rng.choice([10, 100, 100, 100, 30, 100, 100, 10, 100, 100, 6, 4]), 'max_len': rng.choice(list(max_len_choices)), 'hseed': rng.getrandbits(32)}
 
 def train_case(case, tag='tr', data=None, **extra):
     name, path = repo.new_rules_dir(tag)
+    if data is None and case.get('prefixcount'):
+        data = trainlists.render_prefix([(p, k) for p, k in case['items']], case['encoding'])
+        extra = dict(extra, prefixcount=True)
     if data is None:
         data = trainlists.render_plain([(p, k) for p, k in case['items']], case['encoding'])
     res = trainer.train(data, path, encoding=case['encoding'], coverage=case['coverage'], ngram=case['ngram'],
